@@ -15,7 +15,7 @@ for d in sorted(glob.glob(os.path.join(os.path.dirname(os.path.dirname(os.path.a
     if m.get("outside_quantifier") and not m.get("caught"):
         how = "outside the quantifier: " + m["outside_quantifier"][:120]
     what = (line[1] if len(line) > 1 else "").replace("  what: ", "").replace("|", "/")[:110]
-    rows.append("| %s | %s | %s | %s | %s |" % (os.path.basename(d), (am.get("summary") or "")[:110].replace("|", "/"),
-                                             (am.get("needs") or "")[:90].replace("|", "/"), how, what))
-print("| id | change | needs | caught as | first line of the report |\n|---|---|---|---|---|")
+    rows.append("| %s | %s | %s | %s | %s | %s |" % (os.path.basename(d), (am.get("summary") or "")[:110].replace("|", "/"),
+                                                  (am.get("needs") or "")[:90].replace("|", "/"), how, what, m.get("checked_on", "")))
+print("| id | change | needs | caught as | first line of the report | tree |\n|---|---|---|---|---|---|")
 print("\n".join(rows))
